@@ -600,19 +600,27 @@ def probes_scalar(ctx, rng, cfgs):
 def probes_likelihood(ctx, rng):
     """log-likelihood = its definition; fit = maximiser of kernel_loglikelihood (brute force over a lmbda grid)"""
     names = ["BoxCox", "YeoJohnson", "Modulus", "Manly", "BoxCoxShift"]
-    reps = 8 if ctx.tier == "thorough" else 1
-    grid = np.linspace(-3, 3, 1201 if ctx.tier == "thorough" else 241)
+    reps = 8 if ctx.tier == "thorough" else 2
+    grid = np.linspace(-4.5, 4.5, 1801 if ctx.tier == "thorough" else 361)
     for name in names:
         for rep in range(reps):
-            lam0 = float(rng.uniform(-0.8, 1.8))
-            n = int(rng.integers(60, 200))
+            # true parameters inside the default start bracket (-2, 2) of the scalar search, and (odd reps) well outside it:
+            # the bracket is only where the search starts, the maximum-likelihood estimate is not confined to it
+            lam0 = float(rng.uniform(-0.8, 1.8)) if rep % 2 == 0 else float(rng.choice([-1, 1]) * rng.uniform(2.5, 3.3))
+            n = int(rng.integers(120, 260)) if rep % 2 else int(rng.integers(60, 200))
             gen = make(name, lam0, 0.0)
             with Quiet():
                 lo, hi = (float(v) for v in gen.denormalize_range)
-                zs = rng.normal(0.5, 0.35, 4 * n)
+                zs = rng.normal(0.5, 0.35, 8 * n)
                 if name in ("Manly",):
-                    zs = rng.normal(0.0, 0.6, 4 * n)
-                zs = zs[(zs > lo + 0.05) & (zs < hi - 0.05)][:n]
+                    zs = rng.normal(0.0, 0.6, 8 * n)
+                if np.isfinite(lo) and np.isfinite(hi):
+                    zs = rng.normal(0.5 * (lo + hi), 0.2 * (hi - lo), 8 * n)
+                elif np.isfinite(hi) and hi < 1.3:
+                    zs = rng.normal(hi - 0.5, 0.2, 8 * n)
+                elif np.isfinite(lo) and lo > -0.3:
+                    zs = rng.normal(lo + 0.6, 0.2, 8 * n)
+                zs = zs[(zs > lo + 0.05 * min(1.0, abs(lo))) & (zs < hi - 0.05 * min(1.0, abs(hi)))][:n]
                 data = np.asarray(gen.denormalize(zs), dtype=float)
             data = data[np.isfinite(data)]
             if len(data) < 20:
@@ -1081,6 +1089,342 @@ def pipeline(ctx, drv, rng):
             ctx.violation("probe: NaN raw value gives NaN output", "a NaN raw value produced a number", dict(desc, raw=hexl(raw), out=hexl(out)), key="pipeline-nan")
 
 
+# ------------------------------------------------------------------------------------------- histories
+
+def fv_of(spec):
+    """mean / trend from its JSON-able description: None | ["const", c] | ["lin", a, b] (a + b * first coordinate)"""
+    if spec is None:
+        return None
+    if spec[0] == "const":
+        return float(spec[1])
+    a, b = float(spec[1]), float(spec[2])
+    return lambda *c: a + b * np.asarray(c[0], dtype=float)
+
+
+def rand_fv(rng, scale):
+    r = rng.random()
+    if r < 0.25:
+        return None
+    if r < 0.6:
+        return ["const", float(scale * rng.uniform(-1, 1))]
+    return ["lin", float(scale * rng.uniform(-1, 1)), float(scale * 0.2 * rng.uniform(-1, 1))]
+
+
+def rand_norm(rng):
+    return [("Normalizer", 1.0, 0.0), ("LogNormal", 1.0, 0.0), ("BoxCox", float(rng.uniform(-1, 2)), 0.0),
+            ("BoxCox", 0.0, 0.0), ("BoxCoxShift", float(rng.uniform(-0.5, 1.5)), float(rng.uniform(0, 1))),
+            ("YeoJohnson", float(rng.uniform(-0.5, 2.5)), 0.0), ("Modulus", float(rng.uniform(0.2, 2)), 0.0),
+            ("Manly", float(rng.uniform(-0.3, 0.5)), 0.0)][int(rng.integers(8))]
+
+
+def norm_of_obj(nz):
+    return (type(nz).__name__, float(getattr(nz, "lmbda", 1.0)), float(getattr(nz, "shift", 0.0)))
+
+
+HOLDERS = ["Krige", "Simple", "Ordinary", "Universal", "Detrended", "CondSRF", "SRF", "Field"]
+KRIGE_LIKE = ("Krige", "Simple", "Ordinary", "Universal", "Detrended", "CondSRF")
+
+
+def h_build(holder, sp):
+    """a FRESH object from the present parameters sp"""
+    import gstools as gs
+    model = getattr(gs, sp["model"][0])(dim=sp["dim"], var=sp["model"][1], len_scale=sp["model"][2])
+    nz = make(*sp["norm"])
+    mean, trend = fv_of(sp["mean"]), fv_of(sp["trend"])
+    cpos = [np.array(c, dtype=float) for c in sp["cond_pos"]]
+    cval = np.array(sp["cond_val"], dtype=float)
+    if holder == "SRF":
+        return gs.SRF(model, mean=mean, normalizer=nz, trend=trend, seed=sp["seed"])
+    if holder == "Field":
+        return gs.field.Field(model, mean=mean, normalizer=nz, trend=trend)
+    if holder in ("Krige", "CondSRF"):
+        kr = gs.krige.Krige(model, cpos, cval, mean=mean, normalizer=nz, trend=trend, unbiased=sp["unbiased"],
+                            drift_functions="linear" if sp["drift"] else None)
+    elif holder == "Simple":
+        kr = gs.krige.Simple(model, cpos, cval, mean=mean, normalizer=nz, trend=trend)
+    elif holder == "Ordinary":
+        kr = gs.krige.Ordinary(model, cpos, cval, normalizer=nz, trend=trend)
+        kr.mean = mean
+    elif holder == "Universal":
+        kr = gs.krige.Universal(model, cpos, cval, "linear", normalizer=nz, trend=trend)
+        kr.mean = mean
+    else:
+        kr = gs.krige.Detrended(model, cpos, cval, trend if callable(trend) else (lambda *c: 0.0 * np.asarray(c[0]) + (trend or 0.0)))
+        kr.normalizer = nz
+        kr.mean = mean
+    if holder == "CondSRF":
+        return gs.CondSRF(kr, seed=sp["seed"])
+    return kr
+
+
+def h_eval(holder, obj, sp, ev, use_stored):
+    """one evaluation with the options ev; positions explicit or the stored ones.  Returns a tuple of arrays."""
+    pos = None if use_stored else [np.array(c, dtype=float) for c in ev["pos"]]
+    kw = dict(mesh_type=ev["mesh"]) if not use_stored else dict(mesh_type=ev["mesh"])
+    pp = ev.get("post_process", True)
+    if holder == "SRF":
+        return (np.array(obj(pos, seed=sp["seed"], post_process=pp, **kw)),)
+    if holder == "CondSRF":
+        return (np.array(obj(pos, seed=sp["seed"], post_process=pp, **kw)),)
+    if holder == "Field":
+        raw = np.array(ev["raw"], dtype=float).reshape(ev["shape"])
+        return (np.array(obj(pos, field=raw.copy(), post_process=pp, **kw)),)
+    r = obj(pos, return_var=ev["return_var"], chunk_size=ev["chunk"], post_process=pp, **kw)
+    return tuple(np.array(a) for a in r) if ev["return_var"] else (np.array(r),)
+
+
+def krige_of(holder, obj):
+    return obj.krige if holder == "CondSRF" else obj
+
+
+def h_apply(holder, obj, sp, op, rng_state=None):
+    """apply a setter-type operation to the object and to the present parameters sp"""
+    k = op["op"]
+    if k == "mean":
+        obj.mean = fv_of(op["value"])
+        sp["mean"] = op["value"]
+    elif k == "trend":
+        obj.trend = fv_of(op["value"])
+        sp["trend"] = op["value"]
+    elif k == "norm":
+        obj.normalizer = make(*op["value"])
+        sp["norm"] = tuple(op["value"])
+    elif k == "norm_inplace":
+        nz = obj.normalizer
+        if hasattr(nz, "lmbda"):
+            nz.lmbda = op["value"]
+        sp["norm"] = norm_of_obj(nz)
+    elif k == "set_condition":
+        kr = krige_of(holder, obj)
+        if op["vals"] is None:
+            kr.set_condition(fit_normalizer=op["fit"])
+        else:
+            kr.set_condition([np.array(c, dtype=float) for c in sp["cond_pos"]], np.array(op["vals"], dtype=float), fit_normalizer=op["fit"])
+            sp["cond_val"] = list(op["vals"])
+        sp["norm"] = norm_of_obj(kr.normalizer)
+
+
+def gen_history(rng, holder, tier):
+    dim = int(rng.integers(1, 3))
+    nc = int(rng.integers(4, 8))
+    cond_pos = [np.sort(rng.uniform(0, 6, nc)) + 0.37 * j for j in range(dim)]
+    sp = dict(dim=dim, model=[["Exponential", "Gaussian", "Spherical"][int(rng.integers(3))], float(rng.uniform(0.2, 0.8)), float(rng.uniform(1.0, 2.5))],
+              cond_pos=[c.tolist() for c in cond_pos], cond_val=np.exp(rng.normal(0.6, 0.35, nc)).clip(0.8, 6).tolist(),
+              mean=rand_fv(rng, 0.5), trend=rand_fv(rng, 0.25), norm=rand_norm(rng), seed=int(rng.integers(1, 10 ** 6)),
+              unbiased=bool(rng.random() < 0.5), drift=bool(rng.random() < 0.3))
+    if holder == "Detrended" and (sp["trend"] is None or sp["trend"][0] != "lin"):
+        sp["trend"] = ["lin", float(0.2 * rng.uniform(-1, 1)), float(0.05 * rng.uniform(-1, 1))]
+
+    def new_eval():
+        mesh = "structured" if rng.random() < 0.4 else "unstructured"
+        if mesh == "structured":
+            pos = [np.linspace(0.2, 5.5, int(rng.integers(2, 5))) + 0.1 * j for j in range(dim)]
+            shape = [len(p) for p in pos]
+        else:
+            npt = int(rng.integers(3, 9))
+            pos = [rng.uniform(0, 6, npt) for _ in range(dim)]
+            shape = [npt]
+        ev = dict(op="eval", pos=[p.tolist() for p in pos], mesh=mesh, shape=shape, return_var=bool(rng.random() < 0.5),
+                  chunk=[None, 2, 3][int(rng.integers(3))], post_process=bool(rng.random() < 0.85), stored=False)
+        if holder == "Field":
+            ev["raw"] = rng.normal(0, 0.4, int(np.prod(shape))).tolist()
+        return ev
+    ops = [new_eval()]
+    n = int(rng.integers(3, 8 if tier == "thorough" else 6))
+    for _ in range(n):
+        r = rng.random()
+        if r < 0.35:
+            ev = new_eval()
+            if rng.random() < 0.5:   # same positions as the last evaluation, taken from the object (pos=None)
+                last = [o for o in ops if o["op"] == "eval"][-1]
+                ev.update(pos=last["pos"], mesh=last["mesh"], shape=last["shape"], stored=True)
+                if holder == "Field":
+                    ev["raw"] = rng.normal(0, 0.4, int(np.prod(last["shape"]))).tolist()
+            ops.append(ev)
+        elif r < 0.5:
+            ops.append(dict(op="mean", value=rand_fv(rng, 0.5)))
+        elif r < 0.65:
+            v = rand_fv(rng, 0.25)
+            if holder == "Detrended" and (v is None or v[0] != "lin"):
+                v = ["lin", float(0.2 * rng.uniform(-1, 1)), float(0.05 * rng.uniform(-1, 1))]
+            ops.append(dict(op="trend", value=v))
+        elif r < 0.78:
+            ops.append(dict(op="norm", value=list(rand_norm(rng))))
+        elif r < 0.88:
+            ops.append(dict(op="norm_inplace", value=float(rng.uniform(0.1, 1.5))))
+        elif holder in KRIGE_LIKE:
+            newv = None if rng.random() < 0.4 else np.exp(rng.normal(0.6, 0.35, nc)).clip(0.8, 6).tolist()
+            ops.append(dict(op="set_condition", vals=newv, fit=bool(rng.random() < 0.3)))
+        else:
+            ops.append(dict(op="mean", value=rand_fv(rng, 0.5)))
+        # every setter is followed sooner or later by an evaluation: make sure the history ends with one
+    last = [o for o in ops if o["op"] == "eval"][-1]
+    fin = new_eval()
+    if rng.random() < 0.6:
+        fin.update(pos=last["pos"], mesh=last["mesh"], shape=last["shape"], stored=True)
+        if holder == "Field":
+            fin["raw"] = rng.normal(0, 0.4, int(np.prod(last["shape"]))).tolist()
+    if rng.random() < 0.5:
+        fin["return_var"] = last["return_var"]
+    ops.append(fin)
+    return sp, ops
+
+
+def same_out(a, b):
+    return len(a) == len(b) and all(x.shape == y.shape and C.close(x, y, rtol=1e-11, atol=1e-13) for x, y in zip(a, b))
+
+
+def run_history(holder, sp0, ops, drv=None):
+    """execute the history on ONE object; after every evaluation compare with a fresh object built from the present
+    parameters, with the model pipeline, and (kriging) the conditions with the model.  Returns (message | None, n_evals)."""
+    sp = json.loads(json.dumps(sp0))
+    sp["norm"] = tuple(sp["norm"])
+    nev = 0
+    with Quiet():
+        obj = h_build(holder, sp)
+        for i, op in enumerate(ops):
+            if op["op"] != "eval":
+                try:
+                    h_apply(holder, obj, sp, op)
+                except Exception as e:
+                    return "operation %d (%s) raised %s: %s" % (i, op["op"], type(e).__name__, e), nev
+                continue
+            nev += 1
+            err_h = err_f = None
+            try:
+                out = h_eval(holder, obj, sp, op, op["stored"])
+            except Exception as e:
+                err_h = type(e).__name__
+            try:
+                fresh = h_build(holder, sp)
+                ref = h_eval(holder, fresh, sp, op, False)
+            except Exception as e:
+                err_f = type(e).__name__
+            if err_h or err_f:
+                if err_h != err_f:
+                    return "evaluation %d: the object after its history %s, a fresh object with the present parameters %s" % (
+                        i, "raised " + err_h if err_h else "returned", "raised " + err_f if err_f else "returned"), nev
+                continue
+            if not same_out(out, ref):
+                j = 0 if not (out[0].shape == ref[0].shape and C.close(out[0], ref[0], rtol=1e-11, atol=1e-13)) else 1
+                d = np.abs(np.asarray(out[j], float) - np.asarray(ref[j], float)) if out[j].shape == ref[j].shape else np.array([np.inf])
+                return ("evaluation %d (%s, return_var=%s, chunk=%s, stored pos=%s, post_process=%s): %s after the history differs from a fresh "
+                        "object built from the present mean=%r normalizer=%r trend=%r (max abs difference %.3g; e.g. %r vs %r)" % (
+                            i, holder, op.get("return_var"), op.get("chunk"), op["stored"], op.get("post_process", True),
+                            "field" if j == 0 else "kriging variance", sp["mean"], sp["norm"], sp["trend"], float(np.nanmax(d)),
+                            float(np.asarray(out[j]).ravel()[int(np.nanargmax(d))]) if d.size and np.isfinite(d).any() else None,
+                            float(np.asarray(ref[j]).ravel()[int(np.nanargmax(d))]) if d.size and np.isfinite(d).any() else None)), nev
+            # model pipeline with the PRESENT parameters: out = trend + denormalize(mean + raw)
+            if drv is not None and op.get("post_process", True):
+                try:
+                    raw = h_eval(holder, h_build(holder, sp), sp, dict(op, post_process=False), False)[0]
+                except Exception:
+                    raw = None
+                if raw is not None:
+                    pts = points_of([np.array(c, dtype=float) for c in op["pos"]], op["mesh"], sp["dim"])
+                    means = eval_on(fv_of(sp["mean"]), pts, sp["dim"], "scalar", None)
+                    trends = eval_on(fv_of(sp["trend"]), pts, sp["dim"], "scalar", None)
+                    name, lam, sh = sp["norm"]
+                    mo = drv.call("apply_field", ("n", KINDS[name]), lam, sh, means.ravel(), trends.ravel(), raw.ravel())
+                    Sout = np.abs(out[0].ravel() - trends.ravel()) + np.abs(trends.ravel()) + abs(sh) + 2
+                    if not agree(out[0], mo, Sout).all():
+                        j = int(np.argmin(agree(out[0], mo, Sout)))
+                        return "evaluation %d (%s): output[%d] = %r but trend + denormalize(mean + raw) with the present parameters is %r" % (
+                            i, holder, j, float(out[0].ravel()[j]), float(mo[j])), nev
+            # kriging conditions = remove_trend_norm_mean of the data with the PRESENT parameters
+            if drv is not None and holder in KRIGE_LIKE:
+                kr = krige_of(holder, obj)
+                cpts = np.array(sp["cond_pos"], dtype=float)
+                cm = eval_on(fv_of(sp["mean"]), cpts, sp["dim"], "scalar", None)
+                ct = eval_on(fv_of(sp["trend"]), cpts, sp["dim"], "scalar", None)
+                name, lam, sh = sp["norm"]
+                cond = np.asarray(kr._krige_cond, dtype=float)[:len(sp["cond_val"])]
+                mc = drv.call("remove_field", ("n", KINDS[name]), lam, sh, cm, ct, np.array(sp["cond_val"], dtype=float))
+                if not agree(cond, mc, np.abs(cond) + np.abs(cm) + 1).all():
+                    return "after operation %d: _krige_cond = %r but normalize(cond_val - trend) - mean with the present parameters is %r" % (
+                        i, cond.tolist(), np.asarray(mc).tolist()), nev
+    return None, nev
+
+
+def template_histories(rng, holder, tier):
+    """systematic cells: evaluate (each option combination) / one setter of each kind / evaluate again with the same options"""
+    out = []
+    setters = ["mean", "trend", "norm", "norm_inplace"] + (["set_condition", "set_condition_fit", "set_condition_noargs"] if holder in KRIGE_LIKE else [])
+    rvs = (True, False) if holder in KRIGE_LIKE and holder != "CondSRF" else (True,)
+    for st in setters:
+        for rv in rvs:
+            for stored in (True, False):
+                sp, ops0 = gen_history(rng, holder, tier)
+                if st == "norm_inplace" and sp["norm"][0] in ("Normalizer", "LogNormal"):
+                    sp["norm"] = ("BoxCox", 0.7, 0.0)
+                ev = dict(ops0[0], return_var=rv, post_process=True, chunk=[None, 2][int(rng.integers(2))])
+                nc = len(sp["cond_val"])
+                if st in ("mean", "trend"):
+                    v = ["lin", float(0.3 * rng.uniform(0.3, 1)), float(0.05 * rng.uniform(0.3, 1))]
+                    op = dict(op=st, value=v)
+                elif st == "norm":
+                    op = dict(op="norm", value=["YeoJohnson", float(rng.uniform(0.3, 0.8)), 0.0] if sp["norm"][0] != "YeoJohnson" else ["BoxCox", 0.5, 0.0])
+                elif st == "norm_inplace":
+                    op = dict(op="norm_inplace", value=float(sp["norm"][1] + 0.4))
+                elif st == "set_condition":
+                    op = dict(op="set_condition", vals=np.exp(rng.normal(0.6, 0.35, nc)).clip(0.8, 6).tolist(), fit=False)
+                elif st == "set_condition_fit":
+                    if sp["norm"][0] in ("Normalizer", "LogNormal", "BoxCoxShift"):
+                        sp["norm"] = ("BoxCox", 0.7, 0.0)
+                    op = dict(op="set_condition", vals=np.exp(rng.normal(0.6, 0.35, nc)).clip(0.8, 6).tolist(), fit=True)
+                else:
+                    op = dict(op="set_condition", vals=None, fit=False)
+                ev2 = dict(ev, stored=stored)
+                if holder == "Field":
+                    ev2["raw"] = rng.normal(0, 0.4, int(np.prod(ev["shape"]))).tolist()
+                out.append((sp, [ev, op, ev2]))
+    return out
+
+
+def histories(ctx, drv, rng):
+    """operation histories on every holder of the pipeline: systematic (option x setter) cells and random sequences"""
+    per = 10 if ctx.tier == "thorough" else 3
+    for holder in HOLDERS:
+        todo = [gen_history(rng, holder, ctx.tier) for _ in range(per)]
+        if ctx.tier == "thorough" or holder in ("Krige", "Universal", "CondSRF", "SRF", "Field"):
+            todo += template_histories(rng, holder, ctx.tier)
+        for rep, (sp, ops) in enumerate(todo):
+            msg, nev = run_history(holder, sp, ops, drv)
+            kinds = tuple(o["op"] if o["op"] != "eval" else ("eval-stored" if o["stored"] else "eval") for o in ops)
+            ctx.count(("history", holder, kinds, sp["norm"][0]), n=max(1, nev),
+                      hist=dict(history_holder=holder, history_len=len(ops), history_ops=" ".join(sorted(set(kinds)))))
+            if len(ctx.samples) < 8 and rep == 0 and holder in ("Krige", "CondSRF"):
+                ctx.samples.append(dict(history=holder, ops=[o["op"] for o in ops], normalizer=list(sp["norm"])))
+            if msg:
+                # shrink: drop operations while the failure persists
+                cur = list(ops)
+                changed = True
+                while changed and len(cur) > 1:
+                    changed = False
+                    for j in range(len(cur) - 1):
+                        trial = cur[:j] + cur[j + 1:]
+                        if not any(o["op"] == "eval" for o in trial):
+                            continue
+                        if trial[0]["op"] == "eval" and trial[0].get("stored"):
+                            continue
+                        ok_stored = True
+                        seen_eval = False
+                        for o in trial:
+                            if o["op"] == "eval":
+                                if o["stored"] and not seen_eval:
+                                    ok_stored = False
+                                seen_eval = True
+                        if not ok_stored:
+                            continue
+                        m2, _ = run_history(holder, sp, trial, drv)
+                        if m2:
+                            cur, msg, changed = trial, m2, True
+                            break
+                ctx.violation("probe: history independence (%s)" % holder,
+                              "%s after the operations %s: %s" % (holder, [o["op"] for o in cur], msg),
+                              dict(kind="history", holder=holder, params=sp, ops=cur), key="history:%s" % ("krige" if holder in KRIGE_LIKE else holder))
+
+
 # ------------------------------------------------------------------------------------------- run / replay
 
 def isclose_corr(ctx, drv, rng):
@@ -1163,6 +1507,9 @@ def run(ctx, only=None):
     ctx.tie["normalizer/methods.py: the six *_range properties that are functions"] = "translated (py2coq) and proved equal to the hand model for every number type (C18_tie_*_range); additionally compared by execution"
     ctx.tie["normalizer/methods.py: class-attribute ranges; base class Normalizer formulas"] = "hand model + correspondence"
     ctx.tie["normalizer/base.py: _check_input, normalize, denormalize, derivative, (kernel_)loglikelihood"] = "hand model + correspondence"
+    ctx.tie["holders of the pipeline (Field, SRF, Krige + subclasses, CondSRF): setters, set_condition, evaluation options, caches"] = (
+        "state-machine model C18_History.v (result = function of the present parameters) instantiated by operation histories: every "
+        "evaluation compared with a fresh object, the model pipeline and the model's kriging conditions")
     ctx.tie["normalizer/tools.py: apply_mean_norm_trend / remove_trend_norm_mean; field/base.py post_field; krige/base.py _krige_cond"] = "hand model + correspondence"
     ctx.tie["normalizer/base.py: fit (bookkeeping: free/skipped names, write-back, returned dict)"] = "hand model fit_book + correspondence (recorded and arbitrary optimisers)"
     ctx.tie["normalizer/base.py: fit (optimum)"] = "probed only (brute-force maximisation with the skipped parameters held fixed)"
@@ -1183,6 +1530,7 @@ def run(ctx, only=None):
             corr_loglik(ctx, drv, rng, [c for c in cfgs if lam_class(c[1]) != "gt2" or c[1] <= 3])
             pipeline(ctx, drv, rng)
             corr_fit(ctx, drv, rng)
+            histories(ctx, drv, rng)
             ctx.notes.append("model calls: %d; scalar correspondence disagreements: %d" % (drv.calls, nbad))
         sub = cfgs if ctx.tier == "thorough" else [c for i, c in enumerate(cfgs) if c[1] in LAMBDAS[:14] or i % 3 == 0]
         probes_scalar(ctx, rng, sub)
@@ -1224,6 +1572,13 @@ def replay(ctx, path):
                     msg = probe_point(name, lam, sh, fn, float(v))
                     if msg:
                         print("property fails here:", msg)
+        if drv:
+            drv.close()
+    elif cs.get("kind") == "history":
+        ok, _ = C.build_driver("c18")
+        drv = C.Driver("c18") if ok else None
+        msg, _ = run_history(cs["holder"], cs["params"], cs["ops"], drv)
+        print("history %s on %s now: %s" % ([o["op"] for o in cs["ops"]], cs["holder"], msg or "passes"))
         if drv:
             drv.close()
     elif cs.get("kind") == "ranges":
